@@ -65,7 +65,10 @@ Example demo_nontrivial :
   iol KOut (how h) 0 = [0] /\ inits (how h) 0 = [(NUser 3, 0)] /\ flag KIn (how h) 0 = true /\ gseq (hng h) 1 = [].
 Proof. vm_compute. auto. Qed.
 
-(* ------------------------------------------------------------------ refutations at the defect sites of the current code *)
+(* ------------------------------------------------------------------ refutations at the defect sites.
+   `..._refuted_before_fix` : about original_cfg, the code before the repairs c5c2382 / dff454e landed in /repo (kept as
+   the record of what the `fixed` entries of known_findings.d/C01.json were); `..._refuted` : about current_cfg, the two
+   sites that are still open (SNodeOutputsOwned, SGraphNew). *)
 Lemma need_listed h k v g : InvP h -> flag k (how h) v = true -> vgraph (how h) v = Some g -> memb v (iol k (how h) g) = true.
 Proof. intros (_ & _ & _ & _ & H4 & _) Hf Hg. apply memb_In. apply H4. auto. Qed.
 Lemma need_flag h k v g : InvP h -> memb v (iol k (how h) g) = true -> flag k (how h) v = true /\ vgraph (how h) v = Some g.
@@ -78,53 +81,53 @@ Lemma need_noprod h v : InvP h -> flag KIn (how h) v = true -> prod (hpo h) v = 
 Proof. intros (_ & _ & _ & _ & _ & _ & _ & _ & _ & H6 & _) Hf. apply H6. auto. Qed.
 
 Definition w_delitem := [NewValue 0 (Some (NUser 0)); GraphNew 0 [] [0] [] []; IODelItem KOut 0 0].
-Theorem C01_iodelitem_refuted : ~ InvP (run current_cfg w_delitem empty_heap).
+Theorem C01_iodelitem_refuted_before_fix : ~ InvP (run original_cfg w_delitem empty_heap).
 Proof. intros H. pose proof (need_listed _ KOut 0 0 H eq_refl eq_refl) as X. vm_compute in X. discriminate. Qed.
-Print Assumptions C01_iodelitem_refuted.
+Print Assumptions C01_iodelitem_refuted_before_fix.
 
 Definition w_imul := [NewValue 0 (Some (NUser 0)); GraphNew 0 [0] [] [] []; IOIMul KIn 0 2; IOPop KIn 0 (-1)].
-Theorem C01_ioimul_refuted : ~ InvP (run current_cfg w_imul empty_heap).
+Theorem C01_ioimul_refuted_before_fix : ~ InvP (run original_cfg w_imul empty_heap).
 Proof. intros H. pose proof (need_flag _ KIn 0 0 H eq_refl) as [X _]. vm_compute in X. discriminate. Qed.
-Print Assumptions C01_ioimul_refuted.
+Print Assumptions C01_ioimul_refuted_before_fix.
 
 Definition w_pre := [NewValue 0 (Some (NUser 0)); NewValue 1 (Some (NUser 1)); GraphNew 0 [] [] [] []; GraphNew 1 [1] [] [] []].
 Definition w_extend := w_pre ++ [IOExtend KIn 0 [0; 1]].
-Theorem C01_ioextend_refuted : ~ InvP (run current_cfg w_extend empty_heap).
+Theorem C01_ioextend_refuted_before_fix : ~ InvP (run original_cfg w_extend empty_heap).
 Proof. intros H. pose proof (need_listed _ KIn 0 0 H eq_refl eq_refl) as X. vm_compute in X. discriminate. Qed.
-Print Assumptions C01_ioextend_refuted.
+Print Assumptions C01_ioextend_refuted_before_fix.
 
 Definition w_insert := w_pre ++ [IOInsert KIn 0 0 1].
-Theorem C01_ioinsert_refuted : ~ InvP (run current_cfg w_insert empty_heap).
+Theorem C01_ioinsert_refuted_before_fix : ~ InvP (run original_cfg w_insert empty_heap).
 Proof. intros H. pose proof (need_flag _ KIn 1 0 H eq_refl) as [_ X]. vm_compute in X. discriminate. Qed.
-Print Assumptions C01_ioinsert_refuted.
+Print Assumptions C01_ioinsert_refuted_before_fix.
 
 Definition w_setitem := w_pre ++ [IOAppend KIn 0 0; IOSetItem KIn 0 0 1].
-Theorem C01_iosetitem_refuted : ~ InvP (run current_cfg w_setitem empty_heap).
+Theorem C01_iosetitem_refuted_before_fix : ~ InvP (run original_cfg w_setitem empty_heap).
 Proof. intros H. pose proof (need_flag _ KIn 0 0 H eq_refl) as [X _]. vm_compute in X. discriminate. Qed.
-Print Assumptions C01_iosetitem_refuted.
+Print Assumptions C01_iosetitem_refuted_before_fix.
 
 (* initializers[k] = v with v owned by another graph: the entry being replaced is disowned but stays stored *)
 Definition w_initset := [NewValue 0 (Some (NUser 1)); NewValue 1 (Some (NUser 1)); GraphNew 0 [] [] [] []; GraphNew 1 [] [] [] [];
                          InitAdd 0 0; IOAppend KOut 1 1; InitSetItem 0 (NUser 1) 1].
-Theorem C01_initsetitem_refuted : ~ InvP (run current_cfg w_initset empty_heap).
+Theorem C01_initsetitem_refuted_before_fix : ~ InvP (run original_cfg w_initset empty_heap).
 Proof.
-  intros H. assert (X : vinit (how (run current_cfg w_initset empty_heap)) 0 = true).
+  intros H. assert (X : vinit (how (run original_cfg w_initset empty_heap)) 0 = true).
   { apply (need_init _ 0 (NUser 1) 0 H). vm_compute. auto. }
   vm_compute in X. discriminate.
 Qed.
-Print Assumptions C01_initsetitem_refuted.
+Print Assumptions C01_initsetitem_refuted_before_fix.
 
 Definition w_gpre := [GraphNew 0 [] [] [] []; GraphNew 1 [] [] [] []; NewNode 0 [] (OFresh []) None None;
                       NewNode 1 [] (OFresh []) (Some 1) None].
 Definition w_gextend := w_gpre ++ [GExtend 0 [0; 1]].
-Theorem C01_gextend_refuted : ~ InvP (run current_cfg w_gextend empty_heap).
+Theorem C01_gextend_refuted_before_fix : ~ InvP (run original_cfg w_gextend empty_heap).
 Proof. intros H. pose proof (need_member _ 0 0 H eq_refl) as X. vm_compute in X. discriminate. Qed.
-Print Assumptions C01_gextend_refuted.
+Print Assumptions C01_gextend_refuted_before_fix.
 
 Definition w_ginsert := w_gpre ++ [GInsertAfter 0 1 [0]].
-Theorem C01_ginsert_refuted : ~ InvP (run current_cfg w_ginsert empty_heap).
+Theorem C01_ginsert_refuted_before_fix : ~ InvP (run original_cfg w_ginsert empty_heap).
 Proof. intros H. pose proof (need_member _ 0 0 H eq_refl) as X. vm_compute in X. discriminate. Qed.
-Print Assumptions C01_ginsert_refuted.
+Print Assumptions C01_ginsert_refuted_before_fix.
 
 (* Node(outputs=[graph input]) : a graph input with a producer *)
 Definition w_nodeouts := [NewValue 0 (Some (NUser 0)); GraphNew 0 [0] [] [] []; NewNode 0 [] (OGiven [0] None) None None].
@@ -134,14 +137,21 @@ Print Assumptions C01_nodeoutputs_refuted.
 
 (* Node(outputs=[x, x]): position 0 holds x but x claims index 1 *)
 Definition w_nodeouts_dup := [NewValue 0 (Some (NUser 0)); NewNode 0 [] (OGiven [0; 0] None) None None].
-Theorem C01_nodeoutputs_dup_refuted : ~ I2 (hpo (run current_cfg w_nodeouts_dup empty_heap)).
+Theorem C01_nodeoutputs_dup_refuted_before_fix : ~ I2 (hpo (run original_cfg w_nodeouts_dup empty_heap)).
 Proof.
   intros [H _]. specialize (H 0 0 0 eq_refl). destruct H as [_ H]. vm_compute in H. discriminate.
 Qed.
-Print Assumptions C01_nodeoutputs_dup_refuted.
+Print Assumptions C01_nodeoutputs_dup_refuted_before_fix.
 
 (* Graph([a, foreign]) raises, a keeps the input flag and points to the half-built graph *)
 Definition w_graphnew := w_pre ++ [GraphNew 2 [0; 1] [] [] []].
 Theorem C01_graphnew_refuted : ~ InvP (run current_cfg w_graphnew empty_heap).
 Proof. intros H. pose proof (need_listed _ KIn 0 2 H eq_refl eq_refl) as X. vm_compute in X. discriminate. Qed.
 Print Assumptions C01_graphnew_refuted.
+
+(* the witnesses of the repaired sites are now ordinary clean histories of the current model *)
+Example repaired_witnesses_clean :
+  clean current_cfg w_delitem empty_heap /\ clean current_cfg w_imul empty_heap /\ clean current_cfg w_extend empty_heap /\
+  clean current_cfg w_insert empty_heap /\ clean current_cfg w_setitem empty_heap /\ clean current_cfg w_initset empty_heap /\
+  clean current_cfg w_gextend empty_heap /\ clean current_cfg w_ginsert empty_heap /\ clean current_cfg w_nodeouts_dup empty_heap.
+Proof. repeat split; vm_compute; reflexivity. Qed.
